@@ -12,6 +12,7 @@ import (
 
 	"github.com/markkurossi/mpc/circuit"
 	"github.com/markkurossi/mpc/compiler/utils"
+	"github.com/markkurossi/mpc/types"
 
 	"verifharness/internal/mpclgen"
 	"verifharness/internal/refc"
@@ -173,6 +174,27 @@ func runC02One(cs *vrt.Case) {
 		otk = r.Intn(3) // RSA is slow: few
 	}
 	n0, n1 := int(c.Inputs[0].Type.Bits), int(c.Inputs[1].Type.Bits)
+	// hand-made circuits declare unsigned arguments; a third of them are
+	// relabelled as signed (the gates do not change) so that their values
+	// arrive the way signed values do: as negative big integers
+	if strings.HasPrefix(what, "generated ") && !strings.HasPrefix(what, "generated program") {
+		for i := range c.Inputs {
+			if c.Inputs[i].Type.Bits >= 2 && r.Intn(3) == 0 {
+				c.Inputs[i].Type.Type = types.TInt
+			}
+		}
+	}
+	// asGiven: a signed argument whose top bit is set is handed to the protocol
+	// as the negative number it denotes (IOArg.Parse returns "-5" as -5), the
+	// reference evaluation keeps the two's complement bits
+	asGiven := func(v *big.Int, a circuit.IOArg) *big.Int {
+		bits := int(a.Type.Bits)
+		if a.Type.Type == types.TInt && bits >= 2 && v.Bit(bits-1) == 1 && r.Intn(4) != 0 {
+			cs.Count("signed_inputs_given_as_negative_numbers", 1)
+			return new(big.Int).Sub(v, new(big.Int).Lsh(big.NewInt(1), uint(bits)))
+		}
+		return v
+	}
 	type pair struct{ x, y *big.Int }
 	var pairs []pair
 	if n0+n1 <= 8 && otk != 3 {
@@ -202,6 +224,10 @@ func runC02One(cs *vrt.Case) {
 	// server garbling the same function for several clients); half of these
 	// on a single P so that a pooled buffer released by one session is the one
 	// the next session's Garble picks up while the first is still using it.
+	gx, gy := make([]*big.Int, len(pairs)), make([]*big.Int, len(pairs))
+	for i, p := range pairs {
+		gx[i], gy[i] = asGiven(p.x, c.Inputs[0]), asGiven(p.y, c.Inputs[1])
+	}
 	outs := make([]*yaoOut, len(pairs))
 	kinds := make([]int, len(pairs))
 	overlap := cs.Idx%3 == 1 && len(pairs) >= 2 && otk != 3
@@ -221,7 +247,7 @@ func runC02One(cs *vrt.Case) {
 				wg.Add(1)
 				go func(i int) {
 					defer wg.Done()
-					outs[i] = runYao(rr, c, pairs[i].x, pairs[i].y, yaoOpts{ot: otk, kind: 2, stallWin: 30 * time.Second})
+					outs[i] = runYao(rr, c, gx[i], gy[i], yaoOpts{ot: otk, kind: 2, stallWin: 30 * time.Second})
 				}(i)
 			}
 			wg.Wait()
@@ -237,7 +263,7 @@ func runC02One(cs *vrt.Case) {
 			if r.Intn(5) == 0 {
 				kind = 3
 			}
-			o = runYao(r, c, p.x, p.y, yaoOpts{ot: otk, kind: kind, stallWin: 30 * time.Second})
+			o = runYao(r, c, gx[pi], gy[pi], yaoOpts{ot: otk, kind: kind, stallWin: 30 * time.Second})
 		}
 		cs.Evals++
 		desc := map[string]any{"overlapping": overlap, "circuit": what, "inputs": c.Inputs.String(), "outputs": c.Outputs.String(), "ot": o.otName, "x": p.x.Text(16), "y": p.y.Text(16), "transport": kind}
